@@ -73,4 +73,16 @@ def do_vps():
     out['checksum_key'] = re.findall(r'impl KnownQualifierKey for Checksum<\'_> \{\s*const KEY: &\'static str = "([^"]*)"', wk)
     out['typed_keys'] = [list(x) for x in re.findall(r'str_ref_qualifier!\((\w+), "([^"]*)"', wk + read('qualifiers/well_known/gem.rs') + read('qualifiers/well_known/maven.rs'))]
 attempt('variation points', do_vps)
+def do_serde():
+    # the serde impls: Serialize = collect_str(Display); Deserialize = deserialize_str with a visitor that implements visit_str only
+    de = ps[ps.index('mod de {'):] if 'mod de {' in ps else ''
+    de = de[:de.index('#[cfg(test)]')] if '#[cfg(test)]' in de else de
+    out['visitor_methods'] = sorted(set(re.findall(r'fn (visit_\w+)', de)))
+    out['deserialize_call'] = re.findall(r'deserializer\.(\w+)\(', de)
+    se = fmt[fmt.index('mod ser {'):] if 'mod ser {' in fmt else ''
+    se = se[:se.index('#[cfg(test)]')] if '#[cfg(test)]' in se else se
+    out['serialize_call'] = re.findall(r'serializer\.(\w+)\(([^)]*)\)', se)
+    m = re.search(r'fn visit_str<E>\(self, v: &str\) -> Result<Self::Value, E>\s*where\s*E: Error,\s*\{(.*?)\n        \}', de, re.S)
+    out['visit_str_body'] = re.sub(r'\s+', ' ', m.group(1)).strip() if m else None
+attempt('serde impls', do_serde)
 print(json.dumps(out, indent=1))
